@@ -63,6 +63,22 @@ def showInts (l : List Int) : String := showIntList l
 def bsParams (b : Nat) : List Int := (List.range 6).map fun k => (1000 * (b + 1) + k : Nat)
 def cfParams (i : Nat) : List Int := (List.range 6).map fun k => -((100 * (i + 1) + k : Nat) : Int)
 
+/-- numpy's primitives on binary64 (the driver's instance of `Trig`; used only for the correspondence) -/
+def floatTrig : Trig Float where
+  norm v := Float.sqrt (v.x * v.x + v.y * v.y + v.z * v.z)
+  cos := Float.cos
+  sin := Float.sin
+  atan2 := Float.atan2
+  tan := Float.tan
+  isZero a := a == 0.0
+
+/-- floats travel as IEEE bit patterns -/
+def parseFloats? (s : String) : Option (List Float) := (splitOrEmpty s ",").mapM fun w => w.toNat?.map (Float.ofBits ∘ UInt64.ofNat)
+def showFloats (l : List Float) : String := showList (l.map fun f => toString f.toBits.toNat) ","
+def v3? : List Float → Option (V3 Float × List Float)
+  | a :: b :: c :: r => some (⟨a, b, c⟩, r)
+  | _ => none
+
 def step (_ : Unit) (ws : List String) : Unit × String :=
   let r : String :=
     match ws with
@@ -151,6 +167,22 @@ def step (_ : Unit) (ws : List String) : Unit × String :=
       match parseIntList? m with
       | some [a, b, c, d, e, f, g, h, i] => "ok " ++ showInts (matToCf [[a, b, c], [d, e, f], [g, h, i]]).flatten
       | _ => "bad-op"
+    | ["rottrans", fs] =>
+      match parseFloats? fs with
+      | some l => match (do let (p, l) ← v3? l; let (r, l) ← v3? l; let (t, l) ← v3? l; if l.isEmpty then pure (p, r, t) else none) with
+        | some (p, r, t) => let o := rotateTranslate floatTrig p r t; "ok " ++ showFloats [o.x, o.y, o.z]
+        | none => "bad-op"
+      | none => "bad-op"
+    | ["residpair", fs] =>
+      match parseFloats? fs with
+      | some l => match (do let (br, l) ← v3? l; let (bt, l) ← v3? l; let (cr, l) ← v3? l; let (ct, l) ← v3? l; let (s, l) ← v3? l
+                            match l with | [t1, t2] => pure (br, bt, cr, ct, s, t1, t2) | _ => none) with
+        | some (br, bt, cr, ct, s, t1, t2) =>
+          let a := calcAnglePair floatTrig (br, bt) (cr, ct) s
+          let r := residualPair floatTrig (br, bt) (cr, ct) s (t1, t2)
+          "ok " ++ showFloats [a.1, a.2, r.1, r.2]
+        | none => "bad-op"
+      | none => "bad-op"
     | ["rcf2ippe"] => "ok " ++ showInts rCfToIppe.flatten
     | _ => "bad-op"
   ((), r)
